@@ -95,6 +95,8 @@ Definition set_fq v s := mkst (parts s) (fulls s) (waits s) (cmps s) (finals s) 
 Definition set_ctime v s := mkst (parts s) (fulls s) (waits s) (cmps s) (finals s) (rlog s) (heap s) (cache s) (wait s) (locks s) (vq s) (fq s) v (ready s) (flcks s).
 Definition set_ready v s := mkst (parts s) (fulls s) (waits s) (cmps s) (finals s) (rlog s) (heap s) (cache s) (wait s) (locks s) (vq s) (fq s) (ctime s) v (flcks s).
 
+Definition set_flcks v s := mkst (parts s) (fulls s) (waits s) (cmps s) (finals s) (rlog s) (heap s) (cache s) (wait s) (locks s) (vq s) (fq s) (ctime s) (ready s) v.
+
 Definition dflt_ff : ffile := mkff [] [] [] 0 [] ST_UNKNOWN 0 false false.
 Definition obj (s : stage) (o : nat) : ffile := nth o (heap s) dflt_ff.
 
@@ -470,7 +472,14 @@ Definition recover_one (acc : stage * list nat * list nat) (kv : name * comp)
              let s1 := set_fulls (aset n (sf_data sf) (fulls s)) (set_parts (aremove n (parts s)) s) in
              (set_heap (heap s1 ++ [comp_to_obj n c ST_RECEIVED]) s1, fin, val ++ [o])
            else (s, fin, val)
-       | None => (set_cmps (aremove n (cmps s)) s, fin, val)
+       | None =>
+           (* orphaned companion; after fix (Recover finishes an interrupted
+              fileutil.Move) a <target>.lck in the final directory is renamed first *)
+           let tgt := match c_renamed c with [] => n | r => r end in
+           let s1 := match alookup tgt (flcks s) with
+                     | Some body => set_flcks (aremove tgt (flcks s)) (set_finals (aset tgt body (finals s)) s)
+                     | None => s end in
+           (set_cmps (aremove n (cmps s1)) s1, fin, val)
        end.
 
 Definition recover (s : stage) (now : Z) : stage :=
